@@ -45,7 +45,11 @@ class SharedTimedMutex : public SharedMutex {
     }
     YACLIB_DEBUG(r && _occupied && (exclusive || _exclusive_mode), "about to be locked twice and not in a good way");
     if (r) {
-      SharedLockHelper();
+      if (exclusive) {
+        LockHelper();
+      } else {
+        SharedLockHelper();
+      }
     }
     return r;
   }
